@@ -205,6 +205,7 @@ type Reject struct {
 }
 
 type JudgeResult struct {
+	Drifts   []Reject // cases where the code is explained by the Prop layer but not by the step-level (Impl) machine: notes, never verdicts
 	Rejects  []Reject
 	Ended    bool
 	EndAt    int
@@ -289,6 +290,7 @@ func Judge(module string, events [][]byte, extra map[string][]byte) (JudgeResult
 		}
 		r := results[ci]
 		jr.Rejects = append(jr.Rejects, r.Rejects...)
+		jr.Drifts = append(jr.Drifts, r.Drifts...)
 		jr.Accepted += r.Accepted
 		jr.Nontriv += r.Nontriv
 		jr.TLC.Generated += r.TLC.Generated
@@ -340,6 +342,17 @@ func judgeOne(module string, events [][]byte, extra map[string][]byte, offset in
 		switch v.Verdict {
 		case "REJECT":
 			jr.Rejects = append(jr.Rejects, Reject{Case: v.Case, At: v.At + offset, Event: v.Event, Why: string(v.Why), KF: v.KF})
+		case "DRIFT":
+			// (printed from inside an action: TLC evaluates it once for the step and once for ENABLED)
+			dup := false
+			for _, d := range jr.Drifts {
+				if d.Case == v.Case && d.At == v.At+offset {
+					dup = true
+				}
+			}
+			if !dup {
+				jr.Drifts = append(jr.Drifts, Reject{Case: v.Case, At: v.At + offset, Event: v.Event, Why: string(v.Why)})
+			}
 		case "END":
 			if jr.Ended {
 				// every judge is a deterministic walk of the log: two END verdicts mean the trace specification
